@@ -1,0 +1,27 @@
+//go:build verif
+
+package diff
+
+import (
+	"sync/atomic"
+
+	"golang.org/x/tools/go/ssa"
+)
+
+// Verification hooks (see /verif/MANIFEST.json "hooks"): a work counter for the zipper's
+// instruction-equivalence routine and read access to the matching it built.
+
+var verifEquivalenceCalls atomic.Int64
+
+func verifCountEquivalence() { verifEquivalenceCalls.Add(1) }
+
+// VerifEquivalenceCalls returns the number of areEquivalent calls since the last reset.
+func VerifEquivalenceCalls() int64 { return verifEquivalenceCalls.Load() }
+
+// VerifResetEquivalenceCalls sets the counter to zero.
+func VerifResetEquivalenceCalls() { verifEquivalenceCalls.Store(0) }
+
+// VerifInstrMaps exposes the forward and reverse instruction maps of a finished comparison.
+func (z *Zipper) VerifInstrMaps() (fwd, rev map[ssa.Instruction]ssa.Instruction) {
+	return z.instrMap, z.revInstrMap
+}
